@@ -31,18 +31,18 @@ PermuteCols(Mx, p) == [a \in 1..Len(Mx) |-> [j \in 1..Len(p) |-> Mx[a][p[j]]]]
 
 -----------------------------------------------------------------------------
 (* exact family *)
-CongForms(c) == IF c.M = 1 THEN {<<TRUE, "bare">>, <<FALSE, "bare">>, <<TRUE, "list">>, <<FALSE, "list">>}
-                ELSE {<<TRUE, "list">>, <<FALSE, "list">>}
+CongForms(c) == {<<ab, fm, sw>> : ab \in BOOLEAN, fm \in (IF c.M = 1 THEN {"bare", "list"} ELSE {"list"}), sw \in BOOLEAN}
+\* r.swap: the rescaled set is passed as the first argument (the matching is then the inverse one)
 ExactCongV(c, r) ==
     IF r.raised THEN "CongRaised"
     ELSE IF ~PermOK(r.perm, c.R) THEN "CongPerm"
     ELSE IF ~IsFin(r.val) THEN "CongFinite"
-    ELSE With(CongL(c.A, c.B, r.abs), LAMBDA W :
+    ELSE With(IF r.swap THEN CongL(c.B, c.A, r.abs) ELSE CongL(c.A, c.B, r.abs), LAMBDA W :
          With(BestSum(W), LAMBDA best :
            IF AssignSum(W, Plus1(r.perm)) # best THEN "CongOptimal"
            ELSE IF AbsI(r.val - RatQ(best, ExTop(c), 6)) > ExactTol THEN "CongValue"
            ELSE IF r.abs /\ (r.val < 0 \/ r.val > One + ExactTol) THEN "CongRange"
-           ELSE IF r.abs /\ c.a = c.b /\ (Plus1(r.perm) # InvPerm(c.p) \/ AbsI(r.val - One) > ExactTol) THEN "CongRecover"
+           ELSE IF r.abs /\ c.a = c.b /\ (Plus1(r.perm) # (IF r.swap THEN c.p ELSE InvPerm(c.p)) \/ AbsI(r.val - One) > ExactTol) THEN "CongRecover"
            ELSE "ok"))
 
 Methods == {"stacked", "max_score", "min_score", "avg_score"}
@@ -50,7 +50,8 @@ ExactCorrV(c, corr) ==
     IF DOMAIN corr # Methods THEN "CorrMethods"
     ELSE IF \E m \in Methods : ~IsFin(corr[m]) THEN "CorrFinite"
     ELSE IF \E m \in Methods : corr[m] < 0 \/ corr[m] > One + ExactTol THEN "CorrRange"
-    ELSE IF (corr["stacked"] <= ZeroTol) # CoverBoth(StackRows(c.A, c.M), StackRows(c.B, c.M)) THEN "CorrZeroIffStacked"
+    \* (with magnitudes that differ between the modes the stacked columns are no longer integer multiples: range only)
+    ELSE IF MagModeIndependent(c.s) /\ (corr["stacked"] <= ZeroTol) # CoverBoth(StackRows(c.A, c.M), StackRows(c.B, c.M)) THEN "CorrZeroIffStacked"
     ELSE With([m \in 1..c.M |-> CorrNum(CosMat(c.A[m], c.B[m], TRUE), L)], LAMBDA nums :
            LET den == 2 * c.R * L IN
            IF AbsI(corr["max_score"] - RatQ(MaxOfSet(SeqRange(nums)), den, 6)) > ExactTol THEN "CorrMax"
@@ -62,34 +63,44 @@ ExactCorrV(c, corr) ==
            ELSE IF (corr["min_score"] <= ZeroTol) # (\E m \in 1..c.M : CoverBoth(c.A[m], c.B[m])) THEN "CorrZeroIff"
            ELSE "ok")
 
-\* cp_permute_factors(ref = (1, A), t): t is (w, B) ["B"] or a copy of the reference ["A"]
+\* cp_permute_factors(ref, t): ref / t are (1, A) ["A"] or (w', B') ["B"], B' = B with the magnitudes of pattern c.s in
+\* floating point and w' = w with the inverse magnitudes (the tensor keeps its size in the weights).
+\* Integer tensors come back as integers (compared here); for a magnified B' the harness logs whether the returned
+\* factors / weights are bit-identical to B'[:, perm] / w'[perm].
 ExactPermuteV(c, r) ==
     IF r.raised THEN "PermuteRaised"
-    ELSE IF r.target \notin {"A", "B"} THEN "PermuteTarget"
+    ELSE IF r.target \notin {"A", "B"} \/ r.ref \notin {"A", "B"} THEN "PermuteTarget"
     ELSE IF ~PermOK(r.perm, c.R) THEN "PermutePerm"
-    ELSE IF ~r.exact THEN "PermuteExact"
     ELSE LET X  == IF r.target = "B" THEN c.B ELSE c.A
+             Rf == IF r.ref = "B" THEN c.B ELSE c.A
              wX == IF r.target = "B" THEN c.w ELSE [j \in 1..c.R |-> 1]
+             measured == Magnified(c.s) /\ r.target = "B"
              p1 == Plus1(r.perm) IN
-         With(CongL(c.A, X, TRUE), LAMBDA W :
+         IF ~measured /\ ~r.exact THEN "PermuteExact"
+         ELSE With(CongL(Rf, X, TRUE), LAMBDA W :
            IF AssignSum(W, p1) # BestSum(W) THEN "PermuteOptimal"
-           ELSE IF r.factors # [m \in 1..c.M |-> PermuteCols(X[m], p1)] THEN "PermuteFactors"
-           ELSE IF r.weights # [j \in 1..c.R |-> wX[p1[j]]] THEN "PermuteWeights"
-           ELSE IF r.target = "B" /\ c.a = c.b /\ p1 # InvPerm(c.p) THEN "PermuteAligned"
-           ELSE IF r.target = "A" /\ p1 # IdPerm(c.R) THEN "PermuteAligned"
+           ELSE IF measured /\ ~r.eqf THEN "PermuteFactors"
+           ELSE IF measured /\ ~r.eqw THEN "PermuteWeights"
+           ELSE IF ~measured /\ r.factors # [m \in 1..c.M |-> PermuteCols(X[m], p1)] THEN "PermuteFactors"
+           ELSE IF ~measured /\ r.weights # [j \in 1..c.R |-> wX[p1[j]]] THEN "PermuteWeights"
+           ELSE IF r.ref = "A" /\ r.target = "B" /\ c.a = c.b /\ p1 # InvPerm(c.p) THEN "PermuteAligned"
+           ELSE IF r.ref = "B" /\ r.target = "A" /\ c.a = c.b /\ p1 # c.p THEN "PermuteAligned"
+           ELSE IF r.ref = r.target /\ p1 # IdPerm(c.R) THEN "PermuteAligned"
            ELSE "ok")
 
 ExactV(e) ==
     LET c == e.cfg IN
     IF ~ValidExact(c) THEN "InDomain"
-    ELSE IF {<<e.cong[k].abs, e.cong[k].form>> : k \in DOMAIN e.cong} # CongForms(c) THEN "CongForms"
-    ELSE IF {<<e.permute[k].form, e.permute[k].target>> : k \in DOMAIN e.permute}
-              # {<<"single", "B">>, <<"list", "B">>, <<"list", "A">>} THEN "PermuteForms"
+    ELSE IF {<<e.cong[k].abs, e.cong[k].form, e.cong[k].swap>> : k \in DOMAIN e.cong} # CongForms(c) THEN "CongForms"
+    ELSE IF {<<e.permute[k].form, e.permute[k].ref, e.permute[k].target>> : k \in DOMAIN e.permute}
+              # {<<"single", "A", "B">>, <<"list", "A", "B">>, <<"list", "A", "A">>, <<"single", "B", "A">>} THEN "PermuteForms"
     ELSE With(FirstBad([k \in DOMAIN e.cong |-> ExactCongV(c, e.cong[k])]), LAMBDA v1 :
          IF v1 # "ok" THEN v1
          ELSE With(ExactCorrV(c, e.corr), LAMBDA v2 :
               IF v2 # "ok" THEN v2
-              ELSE FirstBad([k \in DOMAIN e.permute |-> ExactPermuteV(c, e.permute[k])])))
+              ELSE With(ExactCorrV(c, e.corr_swap), LAMBDA v3 :      \* the index is symmetric in its arguments
+                   IF v3 # "ok" THEN v3
+                   ELSE FirstBad([k \in DOMAIN e.permute |-> ExactPermuteV(c, e.permute[k])]))))
 
 -----------------------------------------------------------------------------
 (* generic family: logged cosine matrices (scale 1e6), brute-force optimality inside TLC *)
@@ -140,7 +151,7 @@ GenericV(e) ==
     ELSE IF ~IsIntMat(e.cos_stacked, c.R, c.R) THEN "CosShape"
     ELSE IF \E m \in 1..c.M : \E a, b \in 1..c.R : AbsI(e.cos[m][a][b]) > One THEN "CosRange"
     ELSE IF \E a, b \in 1..c.R : e.cos_stacked[a][b] < 0 \/ e.cos_stacked[a][b] > One THEN "CosRange"
-    ELSE IF {<<e.cong[k].abs, e.cong[k].form>> : k \in DOMAIN e.cong} # CongForms(c) THEN "CongForms"
+    ELSE IF {<<e.cong[k].abs, e.cong[k].form, e.cong[k].swap>> : k \in DOMAIN e.cong} # {f \in CongForms(c) : ~f[3]} THEN "CongForms"
     ELSE IF {e.permute[k].form : k \in DOMAIN e.permute} # {"single", "list"} THEN "PermuteForms"
     ELSE With(FirstBad([k \in DOMAIN e.cong |-> GenCongV(e, e.cong[k])]), LAMBDA v1 :
          IF v1 # "ok" THEN v1
